@@ -128,6 +128,9 @@ def hostile_bytes(item, ser, rng, seq, base="invoke"):
     elif item == "reset_idle":
         data = b""
         close = "reset"
+    elif item == "valid_then_reset":
+        data = req
+        close = "reset_after"
     elif item == "stream_abandon":
         data = inv("target", "gen", [4])
         close = "abandon"
@@ -277,7 +280,9 @@ def run_scripts(scripts, servertype, timeout, seed, full=False):
                         lab.log.append({"e": "First", "c": at.rc.cid, "accept": False, "mustreason": False})
                         data, close = hostile_bytes(step["item"], ser, rng, at.seq, base="connect" if step["pre"] else "invoke")
                         at.rc.send(data)
-                        if close == "reset":
+                        if close == "reset_after":
+                            at.rc.sock.peer.reset_after_drain = True     # the bytes stay readable; every answer fails
+                        elif close == "reset":
                             at.rc.abort()
                         elif close == "abandon":
                             at.rc.close()
@@ -316,7 +321,11 @@ def run_scripts(scripts, servertype, timeout, seed, full=False):
                         if close == "stall" and timeout:
                             stay_active(timeout + 1.0)       # silence: the server's own timeout must end the read
                         elif close:
-                            if close == "reset":
+                            if close == "reset_after":
+                                at.rc.sock.peer.reset_after_drain = True
+                                sc.quiesce()
+                                at.rc.close()
+                            elif close == "reset":
                                 at.rc.abort()
                             elif close == "abandon":
                                 sc.quiesce()                 # the stream exists on the server now
@@ -410,7 +419,7 @@ def run(ctx):
     tlc.mc(ctx, "Daemon", cfg_text=c08.MC_CFG % (c08.SAMPLES[1], ctx.pick(8, 9)))
     s1 = tlc.gen(ctx, "Gen_Hostile", cfg_text=GEN_CFG % 1)
     s2 = tlc.gen(ctx, "Gen_Hostile", cfg_text=GEN_CFG % 2)
-    if len(s1) != 132 or len(s2) < 10000:
+    if len(s1) != 136 or len(s2) < 10000:
         raise util.MachineryError("attack script generation incomplete")
     walks = tlc.gen(ctx, "Gen_Hostile", cfg_text=GEN_CFG % 5, workers=1,
                     extra=("-simulate", "num=%d" % ctx.pick(500, 6000), "-depth", "7", "-seed", str(ctx.seed + 5)))
